@@ -1,2 +1,247 @@
+//! Property predicates evaluated directly on the implementation (with std::path, or the
+//! independent specifications of `spec.rs`, as oracle).  Output: JSON lines —
+//!   {"t":"fail", "prop":…, "clause":…, "class":null|"K1"…, "replay":<op line>, "detail":…}
+//!   {"t":"stat", "evaluations":…, "distinct_nontrivial":…, "dist":{…}, "samples":[…]}
+//! `class` names a known-finding class (narrow predicate, see DESIGN.md §2.2); whether a class
+//! is actually suppressed is decided by `check` from known_findings.jsonl, never here.
+
+use crate::gen;
+use crate::spec::{self, SComp};
+use crate::util::*;
+use std::collections::hash_map::DefaultHasher;
+use std::collections::{BTreeMap, HashMap, HashSet};
+use std::hash::{Hash, Hasher};
 use std::io::Write;
-pub fn run(_prop: &str, _tier: &str, _seed: u64, _out: &mut impl Write) {}
+use typed_path::*;
+
+pub struct Ctx<'a> {
+    pub out: &'a mut dyn Write,
+    pub prop: String,
+    pub evals: u64,
+    pub nontrivial: HashSet<u64>,
+    pub fails: HashMap<String, u64>,
+    pub samples: Vec<String>,
+    pub dist: BTreeMap<String, u64>,
+}
+
+impl<'a> Ctx<'a> {
+    pub fn new(out: &'a mut dyn Write, prop: &str) -> Self {
+        Ctx { out, prop: prop.into(), evals: 0, nontrivial: HashSet::new(), fails: HashMap::new(), samples: Vec::new(), dist: BTreeMap::new() }
+    }
+    /// count one evaluated case; `nontrivial` by the property's rule; distinct by `key`
+    pub fn case<K: Hash>(&mut self, nontrivial: bool, key: K) {
+        self.evals += 1;
+        if nontrivial {
+            let mut h = DefaultHasher::new();
+            key.hash(&mut h);
+            self.nontrivial.insert(h.finish());
+        }
+    }
+    pub fn tally(&mut self, k: &str) {
+        *self.dist.entry(k.to_string()).or_insert(0) += 1;
+    }
+    pub fn sample(&mut self, s: String) {
+        if self.samples.len() < 12 {
+            self.samples.push(s);
+        }
+    }
+    pub fn fail(&mut self, clause: &str, class: Option<&str>, replay: String, detail: String) {
+        let key = format!("{}|{}", clause, class.unwrap_or("-"));
+        let n = self.fails.entry(key).or_insert(0);
+        *n += 1;
+        if *n <= 5 {
+            let cls = match class {
+                Some(c) => json_str(c),
+                None => "null".into(),
+            };
+            writeln!(
+                self.out,
+                "{{\"t\":\"fail\",\"prop\":{},\"clause\":{},\"class\":{},\"replay\":{},\"detail\":{}}}",
+                json_str(&self.prop),
+                json_str(clause),
+                cls,
+                json_str(&replay),
+                json_str(&detail)
+            )
+            .unwrap();
+        }
+    }
+    pub fn finish(self) {
+        let dist: Vec<String> = self.dist.iter().map(|(k, v)| format!("{}:{}", json_str(k), v)).collect();
+        let samples: Vec<String> = self.samples.iter().map(|s| json_str(s)).collect();
+        let fails: Vec<String> = self.fails.iter().map(|(k, v)| format!("{}:{}", json_str(k), v)).collect();
+        writeln!(
+            self.out,
+            "{{\"t\":\"stat\",\"prop\":{},\"evaluations\":{},\"distinct_nontrivial\":{},\"dist\":{{{}}},\"fail_counts\":{{{}}},\"samples\":[{}]}}",
+            json_str(&self.prop),
+            self.evals,
+            self.nontrivial.len(),
+            dist.join(","),
+            fails.join(","),
+            samples.join(",")
+        )
+        .unwrap();
+    }
+}
+
+// ---------- views of the implementation ----------
+
+pub fn kind_of(k: &WindowsPrefix) -> spec::Kind {
+    match k {
+        WindowsPrefix::Verbatim(a) => spec::Kind::Verbatim(a.to_vec()),
+        WindowsPrefix::VerbatimUNC(a, b) => spec::Kind::VerbatimUNC(a.to_vec(), b.to_vec()),
+        WindowsPrefix::VerbatimDisk(d) => spec::Kind::VerbatimDisk(*d),
+        WindowsPrefix::DeviceNS(a) => spec::Kind::DeviceNS(a.to_vec()),
+        WindowsPrefix::UNC(a, b) => spec::Kind::UNC(a.to_vec(), b.to_vec()),
+        WindowsPrefix::Disk(d) => spec::Kind::Disk(*d),
+    }
+}
+
+pub fn sc_w(c: &WindowsComponent) -> SComp {
+    match c {
+        WindowsComponent::Prefix(p) => SComp::Prefix(kind_of(&p.kind())),
+        WindowsComponent::RootDir => SComp::Root,
+        WindowsComponent::CurDir => SComp::Cur,
+        WindowsComponent::ParentDir => SComp::Parent,
+        WindowsComponent::Normal(s) => SComp::Normal(s.to_vec()),
+    }
+}
+
+pub fn sc_u(c: &UnixComponent) -> SComp {
+    match c {
+        UnixComponent::RootDir => SComp::Root,
+        UnixComponent::CurDir => SComp::Cur,
+        UnixComponent::ParentDir => SComp::Parent,
+        UnixComponent::Normal(s) => SComp::Normal(s.to_vec()),
+    }
+}
+
+pub fn comps(win: bool, b: &[u8]) -> Vec<SComp> {
+    if win {
+        WindowsPath::new(b).components().map(|c| sc_w(&c)).collect()
+    } else {
+        UnixPath::new(b).components().map(|c| sc_u(&c)).collect()
+    }
+}
+
+pub fn spec_comps(win: bool, b: &[u8]) -> Vec<SComp> {
+    if win {
+        spec::win_decomp(b).comps
+    } else {
+        spec::unix_decomp(b)
+    }
+}
+
+pub fn show_sc(cs: &[SComp]) -> String {
+    let v: Vec<String> = cs
+        .iter()
+        .map(|c| match c {
+            SComp::Prefix(k) => format!("Prefix({:?})", k),
+            SComp::Root => "Root".into(),
+            SComp::Cur => ".".into(),
+            SComp::Parent => "..".into(),
+            SComp::Normal(s) => format!("N({})", lossy(s)),
+        })
+        .collect();
+    format!("[{}]", v.join(", "))
+}
+
+pub fn is_sep(win: bool, b: u8) -> bool {
+    b == b'/' || (win && b == b'\\')
+}
+
+/// valid names + complete prefix (DESIGN.md §2.3)
+pub fn well_formed(win: bool, b: &[u8]) -> bool {
+    let cs = spec_comps(win, b);
+    spec::names_valid(&cs, win) && (!win || spec::win_complete_prefix(b))
+}
+
+/// K3: no prefix, begins with two separator bytes (the UNC introducer hazard)
+pub fn k3_shape(win: bool, b: &[u8]) -> bool {
+    win && b.len() >= 2 && spec::any_sep(b[0]) && spec::any_sep(b[1]) && spec::win_prefix(b).is_none()
+}
+
+pub fn nontrivial_path(cs: &[SComp]) -> bool {
+    cs.len() >= 2 || matches!(cs.first(), Some(SComp::Prefix(_)))
+}
+
+pub fn push_b(win: bool, a: &[u8], b: &[u8]) -> Vec<u8> {
+    if win {
+        let mut x = WindowsPathBuf::from(a);
+        x.push(b);
+        x.into_vec()
+    } else {
+        let mut x = UnixPathBuf::from(a);
+        x.push(b);
+        x.into_vec()
+    }
+}
+
+pub fn push_checked_b(win: bool, a: &[u8], b: &[u8]) -> (Vec<u8>, Result<(), CheckedPathError>) {
+    if win {
+        let mut x = WindowsPathBuf::from(a);
+        let r = x.push_checked(b);
+        (x.into_vec(), r)
+    } else {
+        let mut x = UnixPathBuf::from(a);
+        let r = x.push_checked(b);
+        (x.into_vec(), r)
+    }
+}
+
+pub fn path_eq(win: bool, a: &[u8], b: &[u8]) -> bool {
+    if win {
+        WindowsPath::new(a) == WindowsPath::new(b)
+    } else {
+        UnixPath::new(a) == UnixPath::new(b)
+    }
+}
+
+pub fn parent_b(win: bool, a: &[u8]) -> Option<Vec<u8>> {
+    if win {
+        WindowsPath::new(a).parent().map(|p| p.as_bytes().to_vec())
+    } else {
+        UnixPath::new(a).parent().map(|p| p.as_bytes().to_vec())
+    }
+}
+
+pub fn file_name_b(win: bool, a: &[u8]) -> Option<Vec<u8>> {
+    if win {
+        WindowsPath::new(a).file_name().map(|p| p.to_vec())
+    } else {
+        UnixPath::new(a).file_name().map(|p| p.to_vec())
+    }
+}
+
+pub fn run(prop: &str, tier: &str, seed: u64, out: &mut dyn Write) {
+    let mut ctx = Ctx::new(out, prop);
+    match prop {
+        "C01" => crate::orc_a::c01(&mut ctx, tier, seed),
+        "C02" => crate::orc_a::c02(&mut ctx, tier, seed),
+        "C03" => crate::orc_a::c03(&mut ctx, tier, seed),
+        "C04" => crate::orc_a::c04(&mut ctx, tier, seed),
+        "C05" => crate::orc_a::c05(&mut ctx, tier, seed),
+        "C06" => crate::orc_b::c06(&mut ctx, tier, seed),
+        "C07" => crate::orc_b::c07(&mut ctx, tier, seed),
+        "C08" => crate::orc_b::c08(&mut ctx, tier, seed),
+        "C09" => crate::orc_b::c09(&mut ctx, tier, seed),
+        "C10" => crate::orc_b::c10(&mut ctx, tier, seed),
+        "C11" => crate::orc_c::c11(&mut ctx, tier, seed),
+        "C12" => crate::orc_c::c12(&mut ctx, tier, seed),
+        "C13" => crate::orc_c::c13(&mut ctx, tier, seed),
+        "C14" => crate::orc_d::c14(&mut ctx, tier, seed),
+        "C15" => crate::orc_d::c15(&mut ctx, tier, seed),
+        "C16" => crate::orc_c::c16(&mut ctx, tier, seed),
+        "C17" => crate::orc_c::c17(&mut ctx, tier, seed),
+        "C18" => crate::orc_d::c18(&mut ctx, tier, seed),
+        "C19" => crate::orc_d::c19(&mut ctx, tier, seed),
+        "C20" => {
+            // decided by running two builds on the same op file (see `check`); the op file is
+            // generated by gen::gen("C20"), nothing to evaluate here beyond counting it
+            let n = gen::gen("C20", tier, seed).len();
+            ctx.evals = n as u64;
+        }
+        _ => {}
+    }
+    ctx.finish();
+}
